@@ -42,7 +42,8 @@ Proof. intros H1 H2. unfold pcall. rewrite H1, H2. reflexivity. Qed.
 Theorem set_iff_not_none m vals r : to_req m vals = Val r -> guarded r = negb (is_none (deciding m vals)).
 Proof.
   destruct m; destruct vals as [|v1 [|v2 [|v3 t]]]; cbn [to_req]; try discriminate;
-    try destruct v1; try destruct v2; cbn; try discriminate; intros [= <-]; reflexivity.
+    try destruct v1; try destruct v2; cbn; try discriminate;
+    try match goal with |- context [oneshot ?s] => destruct (oneshot s) end; intros [= <-]; reflexivity.
 Qed.
 
 Example falsy_values_are_sets :
@@ -66,6 +67,7 @@ Proof.
   - right. pose proof (set_iff_not_none m vals r E) as G. rewrite Hd in G. cbn [negb] in G.
     destruct (recycled_no_syscall h st r k G Hne) as [h' ->]. exists h'. reflexivity.
   - exfalso. destruct m; destruct vals as [|v1 [|v2 [|v3 t]]]; cbn [to_req] in E; try discriminate;
-      try destruct v1; try destruct v2; cbn in E; discriminate.
+      try destruct v1; try destruct v2; cbn in E; try discriminate;
+      match type of E with context [oneshot ?s] => destruct (oneshot s) end; discriminate.
   - left. reflexivity.
 Qed.
